@@ -37,14 +37,12 @@ NOTE = ("Bounds (quick): frame lists <= 3 (lfl 1..2, delimiters, noop) / <= 2 (l
         "point; hostile strings over {00,01,02,FF} up to header + 2 (lfl 3..8: over {00,FF}, model: header + 2, replay: "
         "header); reads deliver <= 16 bytes (what reserve(16) guarantees). Ancillary: <= 3 messages, payload sizes "
         "0..17, 18 capacities, 64-bit Linux cmsghdr layout only. Trusted: scripted reader/writer of the harness, "
-        "BytesCodec/serde_json as codecs, Vec<u8> and BytesMut as buffers. Payloads containing the delimiter are a "
+        "BytesCodec/serde_json as codecs, Vec<u8> and BytesMut as buffers. The Err arm of Framer::extract is exercised "
+        "with one harness-defined framer (length-limited LengthDelimited). Payloads containing the delimiter are a "
         "precondition of delimiter framing, lfl = 0 and an empty delimiter are outside the quantifier. Hostile control "
         "buffers for AncillaryIter are excluded (its constructor is unsafe and requires valid messages).")
 TECHNIQUE = "TLA+ models (TLC exhaustive, progress measure) + spec-to-impl behaviour replay with contract oracle"
 DESIGN_REF = "3/C13"
-
-FRAMING_ACTIONS_OPTIONAL = ()
-
 
 # ------------------------------------------------------------------------------------------------
 def _replay_file(binname, path, timeout=900):
@@ -187,12 +185,13 @@ def run(run, tier, replay):
         jtmp = os.path.join(tmp, "jvm")
         os.makedirs(jtmp, exist_ok=True)
         JVM = ["-Djava.io.tmpdir=" + jtmp]
-        pool = cf.ThreadPoolExecutor(max_workers=3 if quick else 4)
+        pool = cf.ThreadPoolExecutor(max_workers=4)      # <= 4 TLC processes, one worker each
+        bpool = cf.ThreadPoolExecutor(max_workers=1)     # cargo mostly waits for the shared build lock
         try:
             # SANY on the Gen_* modules also parses and checks the modules they extend (Framing, Ancillary)
             mods = ("Gen_Framing", "Gen_Ancillary") if quick else ("Framing", "Gen_Framing", "Ancillary", "Gen_Ancillary")
             fs = [pool.submit(_timed, "sany " + m, _sany, m, jtmp) for m in mods]
-            build = pool.submit(_timed, "cargo build", vlib.cargo_build, "hio", ["replay_framing", "replay_ancillary"])
+            build = bpool.submit(_timed, "cargo build", vlib.cargo_build, "hio", ["replay_framing", "replay_ancillary"])
             for f in fs:
                 f.result()
 
@@ -200,12 +199,12 @@ def run(run, tier, replay):
             T = 900 if quick else 1700
             RT_ONLY = ("IdleExtractPanics", "IdleExtractErr", "PollPoisoned", "ReadDataLazy")
             if quick:
-                mcplan = [("Framing", "MC_Framing.cfg", 2, ("ReadErr", "PollAfterDone")),
+                mcplan = [("Framing", "MC_Framing.cfg", 1, ("ReadErr", "PollAfterDone")),
                           ("Framing", "MC_Framing_env.cfg", 1, ("IdleExtractPanics",)),
                           ("Ancillary", "MC_Ancillary.cfg", 1, ())]
             else:
                 mcplan = [("Framing", "MC_Framing_thorough.cfg", 1, RT_ONLY),
-                          ("Framing", "MC_Framing_hostile_thorough.cfg", 2,
+                          ("Framing", "MC_Framing_hostile_thorough.cfg", 1,
                            ("StartSend", "WriteSome", "WriteDone", "Close", "ReadData", "ReadErr", "PollAfterDone")),
                           ("Framing", "MC_Framing_env.cfg", 1, ("IdleExtractPanics",)),
                           ("Framing", "MC_Framing_trunc.cfg", 1, RT_ONLY + ("ReadErr", "PollAfterDone")),
@@ -286,6 +285,7 @@ def run(run, tier, replay):
             run.note("negative_control_cases", k1 + k2)
         finally:
             pool.shutdown(wait=True, cancel_futures=True)
+            bpool.shutdown(wait=True, cancel_futures=True)
         run.assumptions += [
             "the scripted reader/writer of the harness implement AsyncRead/AsyncWrite faithfully (set_len after a fill)",
             "framing logic is independent of payload byte values other than those of the tiny alphabets used",
